@@ -161,7 +161,9 @@ def process(ctx: Ctx, cases: list[dict]) -> None:
                     p.parent.mkdir(parents=True, exist_ok=True)
                     p.write_text("// comment inside the include\nzz_included 1; /* block inside the include */\nzz_sub { // nested include comment\n q 2; }\n")
                 src = td / "src"
-                src.write_text(text)
+                # how the file is stored: LF, CRLF or a lone CR as line terminator (the file layer translates them)
+                eol = c.get("eol", "\n")
+                src.write_bytes(text.replace("\r\n", "\n").replace("\n", eol).encode("utf-8") if eol != "\n" else text.encode("utf-8"))
                 reset_globals()
                 sd_inc = DictReader.read(src)                     # includes merged (missing ones are skipped)
                 out_inc = NativeFormatter().to_string(sd_inc)
@@ -274,7 +276,10 @@ def mk_case(rng, items):
     text = render(rng, items)
     files = [it["name"] for it in items if it["i"] == "incl" and it["name"] not in ("missing", "../up") and "\\" not in it["name"]]
     nontrivial = any(it["i"] == "sub" for it in items) or any(it["i"] in ("lineC", "blockC") and re.search(r"[\\$'\"{};]", it["text"]) for it in items)
-    return {"kind": "src", "text": text, "items": items, "files": files, "nontrivial": nontrivial}
+    eol = rng.choice(["\n", "\n", "\n", "\r\n", "\r"])
+    if eol != "\n" and any(it["i"] in ("lineC", "blockC") and ("\n" in it["text"] or "\r" in it["text"]) for it in items):
+        eol = "\n"          # multi-line block comments keep their own line breaks: only LF files for those
+    return {"kind": "src", "text": text, "items": items, "files": files, "nontrivial": nontrivial, "eol": eol}
 
 
 def run(ctx: Ctx) -> None:
